@@ -724,3 +724,59 @@ Proof.
   split; [reflexivity|]. split; [reflexivity|]. split; [reflexivity|].
   split; [vm_compute; reflexivity|]. split; vm_compute; reflexivity.
 Qed.
+
+(* ---- the boolean reflection accepts the etcd model (bounded sweep) ----
+   All schedules of at most 5 macro operations over two registrants (6 operations:
+   MReg 0/1, MLapse, MTickAll, MStop 0/1), both directly and through the
+   withActiveLock layer: [ok] evaluates to true on what the etcd model produces,
+   i.e. the reflection raises no alarm on any behaviour of the verified model. *)
+Definition mop_alphabet : list mop := [MReg 0; MReg 1; MLapse; MTickAll; MStop 0; MStop 1].
+
+Fixpoint seqs (n : nat) : list (list mop) :=
+  match n with
+  | O => [[]]
+  | S k => flat_map (fun t => map (fun m => m :: t) mop_alphabet) (seqs k)
+  end.
+Definition schedules (n : nat) : list (list mop) := flat_map seqs (seq 0 (S n)).
+
+Definition ok_on_model (b : backend) (ttls : list Z) (ops : list mop) : bool :=
+  ok (mkCase b ttls ops (model_obs (mkCase b ttls ops []))).
+
+(* schedules the harness can produce: a registrant is (re)started only when it is
+   not registered, and (watcher mode) only when no watcher is pending *)
+Definition e_can_reg (s : esys) (i : nat) : bool :=
+  match nth_error (es_rs s) i with Some g => can_register (g_pc g) | None => false end.
+
+Fixpoint e_legal (s : esys) (ops : list mop) : bool :=
+  match ops with
+  | [] => true
+  | m :: t => match m with MReg i => e_can_reg s i | _ => true end && e_legal (fst (e_mop s m)) t
+  end.
+
+Fixpoint ew_legal (st : esys * option nat) (ops : list mop) : bool :=
+  match ops with
+  | [] => true
+  | m :: t =>
+      match m with
+      | MReg i => e_can_reg (fst st) i && match snd st with None => true | Some _ => false end
+      | _ => true
+      end && ew_legal (fst (w_mop e_mop e_obs st m)) t
+  end.
+
+Definition e_start : esys := run_skip estep esys_init (map GNew [1; 1]).
+
+Lemma ok_sound_on_etcd_model_bounded :
+  forallb (fun ops => negb (e_legal e_start ops) || ok_on_model BEtcd [1; 1] ops) (schedules 5) = true /\
+  forallb (fun ops => negb (ew_legal (e_start, None) ops) || ok_on_model BEtcdW [1; 1] ops) (schedules 5) = true.
+Proof. split; vm_compute; reflexivity. Qed.
+
+(* the sweep is not vacuous: many schedules are legal *)
+Lemma legal_schedules_counted :
+  Nat.leb 1000 (length (filter (e_legal e_start) (schedules 5))) = true /\
+  Nat.leb 1000 (length (filter (ew_legal (e_start, None)) (schedules 5))) = true.
+Proof. split; vm_compute; reflexivity. Qed.
+
+(* ... while on the redis model it does raise alarms (the witness is among them) *)
+Lemma ok_rejects_redis_witness :
+  ok_on_model BRedis [300; 300] [MReg 0; MLapse; MReg 1; MTickAll; MStop 0] = false.
+Proof. vm_compute; reflexivity. Qed.
